@@ -1,6 +1,7 @@
 ------------------------------- MODULE GenLike -------------------------------
 EXTENDS MCLike, Json, SequencesExt
 AllStrSeq == SetToSeq({Str(s) : s \in AllStrs})
-Emit == PrintT(<<"CASE", ToJson([c |-> [kind |-> "like", toks |-> c, pat |-> Str(c), strs |-> AllStrSeq],
-                                 exp |-> [matched |-> SelectSeq(AllStrSeq, LAMBDA x : x \in LangStr(c))]])>>)
+Emit == LET L == LangStr(c) IN
+        PrintT(<<"CASE", ToJson([c |-> [kind |-> "like", toks |-> c, pat |-> Str(c), strs |-> AllStrSeq],
+                                 exp |-> [matched |-> SelectSeq(AllStrSeq, LAMBDA x : x \in L)]])>>)
 =============================================================================
